@@ -217,6 +217,11 @@ class Abs:
             for o in self.specs:
                 if o.alive and o is not s and o.file != s.file and o.same_file(s.model, newpath):
                     return "reject", False
+            # an absolute-path file that holds specs of several models cannot be moved into one model's folder:
+            # modelx may refuse (the statement says nothing about moving files; refusing changes nothing)
+            if s.file.startswith("@") and not str(newpath).startswith("@") and \
+                    any(o.alive and o is not s and o.file == s.file and o.model != s.model for o in self.specs):
+                return "either", True
             return "ok", True
         if k == "setsheet":
             _, idx, sheet = op
